@@ -1,6 +1,6 @@
 """C04 — a modified blob never decrypts to different plaintext."""
 from __future__ import annotations
-import refimpl, prelude, gen, clientsim, refdc, toycrypto
+import der, refimpl, prelude, gen, clientsim, refdc, toycrypto
 from check import canon_exc, hx
 
 MANIFEST = {
@@ -28,8 +28,7 @@ def make(ctx, real, rec, mode, layout):
     assert out.startswith("done "), out
     blob = bytes.fromhex(out[5:])
     if layout == "trailing":
-        from dpapi_ng._blob import DPAPINGBlob
-        blob = DPAPINGBlob.unpack(blob).pack(blob_in_envelope=False)
+        blob = der.to_trailing(blob)
     return blob, data
 
 
